@@ -149,7 +149,28 @@ fn one(ctx: &Ctx, rng: &mut StdRng, b: &Value, only: &[&'static str], rep: &mut 
         _ => "gamedig".to_string(),
     };
     let pv: i32 = [-1, 0, 47, 765, i32::MAX, i32::MIN][rng.gen_range(0 .. 6)];
-    let rec = if p == "java" {
+    // Java: the request settings reach the handshake either directly (protocol level) or as the caller's extra request settings
+    // of the definition-driven entry point, where each of the two may be left unset (documented defaults: "gamedig", -1)
+    let via_extras = p == "java" && rng.gen_bool(0.5);
+    let (set_host, set_pv) = (rng.gen_bool(0.6), rng.gen_bool(0.6));
+    let (host, pv) = if via_extras { (if set_host { host } else { "gamedig".to_string() }, if set_pv { pv } else { -1 }) } else { (host, pv) };
+    let rec = if via_extras {
+        let mut x = gamedig::protocols::types::ExtraRequestSettings::default();
+        if set_host {
+            x = x.set_hostname(host.clone());
+        }
+        if set_pv {
+            x = x.set_protocol_version(pv);
+        }
+        let ip = addr(port).ip();
+        let game = gamedig::GAMES.get("minecraftjava").unwrap();
+        run_call_json(&script, DEFAULT_MAX_OPS, move || {
+            match gamedig::query_with_timeout_and_extra_settings(game, &ip, Some(port), timeouts(r), Some(x)) {
+                Ok(r) => Ok(crate::valve::strip_enum_wrappers(&serde_json::to_value(r.as_original()).unwrap()).clone()),
+                Err(e) => Err(format!("{:?}", e.kind)),
+            }
+        })
+    } else if p == "java" {
         let (h2, a) = (host.clone(), addr(port));
         run_call(&script, DEFAULT_MAX_OPS, move || {
             minecraft::protocol::query_java(&a, timeouts(r), Some(minecraft::RequestSettings { hostname: h2, protocol_version: pv }))
@@ -158,7 +179,7 @@ fn one(ctx: &Ctx, rng: &mut StdRng, b: &Value, only: &[&'static str], rep: &mut 
         proto::call(p, &script, port, r, None)
     };
     rep.evaluations += 1;
-    let case = json!({"behaviour": b, "script": script, "java": {"host": host, "proto": pv}});
+    let case = json!({"behaviour": b, "script": script, "java": {"host": host, "proto": pv, "via_extras": via_extras, "set": [set_host, set_pv]}});
     let mut fail = |prop: &'static str, sig: String, detail: Value| {
         let (prop, sig) = if prop == "C09" && !only.is_empty() && !only.contains(&"C09") {
             (only[0], format!("a conforming server would not have answered: {sig}"))
